@@ -498,8 +498,7 @@ pub fn exec(run: u64, prog: &Value, out: &mut Out) {
             }
         }
         out.emit(e);
-        if panicked {
-            break; // the object may be half-updated after a panic: end of this program
-        }
+        // a refused operation (panic) is not the end of the program: the caller may catch it and go on using the
+        // table, which must then behave as if the refused operation had never been made
     }
 }
